@@ -217,7 +217,8 @@ def run(ctx: Ctx):
                               {"case": rp["case"], "implementation": got}, feats)
             return
         if feats.get("field") == "comparison_description":
-            okw, got = c09_x.description_witness(feats.get("route", "dict"))
+            route = feats.get("route", "dict")
+            okw, got = c09_x.description_witness(route if route in c09_x.DESCRIPTION_KINDS else "dict")
             ctx.count_case(("replay", "description"), True, {"replay": ctx.replay, "result": got})
             if not okw:
                 ctx.violation(f"replay: comparison description does not survive: {got}",
